@@ -118,6 +118,13 @@ class _Loop(_Frame):
         self.breaks: Dangling = []
 
 
+class _Inline(_Frame):
+    """body of an inlined helper: its `return`s (rewritten to assignments tagged _inline_return) leave the block"""
+
+    def __init__(self) -> None:
+        self.returns: Dangling = []
+
+
 def _has_effects(e: ast.AST) -> bool:
     return any(
         isinstance(n, (ast.Call, ast.Await, ast.Yield, ast.YieldFrom, ast.NamedExpr, ast.ListComp, ast.SetComp, ast.DictComp, ast.GeneratorExp))
@@ -224,7 +231,12 @@ class CFG:
                 else:
                     self._connect(d, f.head)
                 return
+            if isinstance(f, _Inline) and kind == "inline-return":
+                f.returns.extend(d)
+                return
             i -= 1
+        if kind == "inline-return":
+            kind = "return"
         if kind != "return":
             raise AnalysisError(f"{kind} outside loop in {self.fi.qualname}")
         self._connect(d, self.ret)
@@ -365,6 +377,10 @@ class CFG:
             if isinstance(s, ast.AnnAssign) and s.value is None:
                 return d
             n = self._emit("stmt", s, d, raises)
+            if getattr(s, "_inline_return", False):
+                n.meta["inline_return"] = True
+                self._jump([(n, "")], len(self.frames) - 1, "inline-return")
+                return []
             return [(n, "")]
         if isinstance(s, ast.Expr):
             if isinstance(s.value, ast.Constant):
@@ -403,6 +419,12 @@ class CFG:
             n = self._emit("assert-fail", s, f, frozenset({"AssertionError"}))
             n.meta["assert"] = s
             return t
+        if isinstance(s, ast.If) and getattr(s, "_inline", None):
+            fr = _Inline()
+            self.frames.append(fr)
+            end = self._body(s.body, d)
+            self.frames.pop()
+            return end + fr.returns
         if isinstance(s, ast.If):
             t, f = self._cond(s.test, d)
             a = self._body(s.body, t)
